@@ -8,7 +8,7 @@ From Coq Require Import String.
 From Coq Require Import List Ascii ZArith Bool.
 From CGV Require Import Base.PyBase Base.PyVal Gen.FragGen Dialect.DialectImpl Frag.NDict Frag.StripImpl Frag.FragText
      Frag.StripFacts Frag.FragProofs Frag.FragStages Frag.FragSmall Frag.RingProofs
-     Gen.SmilesGen Frag.SmilesParse Frag.SmilesSpec Frag.SmilesProofs Frag.SmilesIndex Frag.SmilesRelabel.
+     Gen.SmilesGen Frag.SmilesParse Frag.SmilesSpec Frag.SmilesProofs Frag.SmilesIndex Frag.SmilesRelabel Frag.SmilesPerm.
 Import ListNotations.
 
 (** The full statement
@@ -154,6 +154,50 @@ Example C01_relabel_nonvacuous :
   graph_of true (relabel rl_f rl_toks) = graph_of true rl_toks /\
   graph_of true (relabel pct_of rl_toks) = graph_of true rl_toks.
 Proof. exact relabel_example. Qed.
+(** text level of C01, branch order: two adjacent branches without ring-bond markers on the same atom,
+    written in either order, give graphs that are equal up to the permutation [swap_sigma] that
+    exchanges the two blocks of atoms ([graph_perm]: node attributes at permuted positions, the edge
+    lists with orders are permutations of each other after renaming; both error or both succeed).
+    [x] and [y] (what is written before and after, ring bonds included) are arbitrary; partial: the
+    branches themselves contain no ring-bond marker, and the start atom is not varied *)
+Theorem C01_branch_order_partial : forall x pa pb y g c,
+  grun false ginit x = Ok g -> q_cur g = Some c -> q_pend g = None -> is_block pa = true -> is_block pb = true ->
+  let s := swap_sigma (q_n g) (count_atoms pa) (count_atoms pb) in
+  match graph_of false (x ++ pa ++ pb ++ y), graph_of false (x ++ pb ++ pa ++ y) with
+  | Ok G, Ok H => exists n, graph_perm s n G H
+  | Err e, Err e' => e = e'
+  | _, _ => False
+  end.
+Proof. exact swap_branches. Qed.
+Theorem C01_branch_order_text_partial : forall x pa pb y g c,
+  wf_smiles (x ++ pa ++ pb ++ y) = true -> wf_smiles (x ++ pb ++ pa ++ y) = true ->
+  grun false ginit x = Ok g -> q_cur g = Some c -> q_pend g = None -> is_block pa = true -> is_block pb = true ->
+  let s := swap_sigma (q_n g) (count_atoms pa) (count_atoms pb) in
+  match smiles_parse (render_smiles false (x ++ pa ++ pb ++ y)), smiles_parse (render_smiles false (x ++ pb ++ pa ++ y)) with
+  | Ok G, Ok H => exists n, graph_perm s n G H
+  | Err e, Err e' => e = e'
+  | _, _ => False
+  end.
+Proof. exact swap_branches_text. Qed.
+(** the general tool behind it: a state simulation under any index permutation that is the identity
+    above the node counter holds along every continuation of the token list *)
+Theorem C01_permutation_simulation : forall s toks g h, sigma_ok s (q_n g) -> PSim s g h ->
+  match grun false g toks, grun false h toks with
+  | Ok g1, Ok h1 => PSim s g1 h1 /\ sigma_ok s (q_n g1)
+  | Err e, Err e' => e = e'
+  | _, _ => False
+  end.
+Proof. exact grun_psim. Qed.
+Example C01_branch_order_nonvacuous :
+  to_string (render_smiles false (sw_x ++ sw_pa ++ sw_pb ++ sw_y)) = "CC(F)(C=O)N"%string /\
+  to_string (render_smiles false (sw_x ++ sw_pb ++ sw_pa ++ sw_y)) = "CC(C=O)(F)N"%string /\
+  wf_smiles (sw_x ++ sw_pa ++ sw_pb ++ sw_y) = true /\ wf_smiles (sw_x ++ sw_pb ++ sw_pa ++ sw_y) = true /\
+  is_block sw_pa = true /\ is_block sw_pb = true /\
+  (exists g, grun false ginit sw_x = Ok g /\ q_cur g = Some 1 /\ q_pend g = None /\ q_n g = 2) /\
+  (exists G H, graph_of false (sw_x ++ sw_pa ++ sw_pb ++ sw_y) = Ok G /\ graph_of false (sw_x ++ sw_pb ++ sw_pa ++ sw_y) = Ok H /\
+     length (g_nodes G) = 6 /\ length (g_edges G) = 5 /\ G <> H /\
+     map (swap_sigma 2 1 2) [0; 1; 2; 3; 4; 5] = [0; 1; 4; 2; 3; 5]).
+Proof. exact swap_example. Qed.
 (** the documented bond orders are the ones of the installed pysmiles *)
 Theorem C13_smiles_orders : forall b, smiles_bond_to_order_lookup [bchar b] = Ok (border b).
 Proof. exact smiles_order_bchar. Qed.
@@ -172,3 +216,5 @@ Print Assumptions C13_render_parse.
 Print Assumptions C13_index_agrees_with_parser.
 Print Assumptions C01_rendering_independent_partial.
 Print Assumptions C01_rendering_independent_text_partial.
+Print Assumptions C01_branch_order_partial.
+Print Assumptions C01_branch_order_text_partial.
